@@ -207,11 +207,16 @@ class Run:
 
     def call_fn(self, spec, counter=None):
         H, calls = self.H, self.calls
+        cancels = spec.startswith('k')  # the function gets its own action cancelled while it runs
+        if cancels:
+            spec = spec[1:]
         kind, arg = spec[0], int(spec[1:])
 
         def fn(*a, **k):
             if counter is not None:
                 calls[counter] = calls.get(counter, 0) + 1
+                if cancels:
+                    H[counter].cancel()
             if kind == 'r':
                 return arg
             if kind == 'f':
